@@ -5,6 +5,8 @@ package websocket
 // vhook is a no-op unless built with -tags verif (see verif_hook_on.go).
 func vhook(ev int, c *Conn, m *mu, a, b int) {}
 
+func vpool(ev, kind int, obj interface{}) {}
+
 func b2i(b bool) int {
 	if b {
 		return 1
